@@ -431,6 +431,7 @@ class Ctx:
     self.prim_count = {}
     self.rand = {}
     self.sqrt_hook = None     # optional f(ctx, a) -> value or None
+    self.saturate = False
     self.sqrt_candidates = []  # candidate closed forms r for sqrt arguments (checked by lemma queries)
     self.sqrt_folded = {}
     self.lemma_stats = {'queries': 0, 'folded': 0, 'time': 0.0}
@@ -550,12 +551,25 @@ class Ctx:
     return self.uf[key][0]
 
   def _axioms(self, name, v, xs):
+    """sound real-arithmetic facts about the abstracted transcendental application v = name(xs).
+    In saturation mode (self.saturate) exp may be 0 and tanh may be +-1, as float32 does for large arguments."""
+    x = xs[0]
+    one, zero = z3.RealVal(1), z3.RealVal(0)
     if name == 'exp':
-      self.side.append(v > 0)
+      if self.saturate:
+        self.side += [v >= 0, z3.Implies(x >= 0, v >= 1), z3.Implies(x <= 0, v <= 1)]
+      else:
+        self.side += [v > 0, v >= 1 + x, z3.Implies(x <= 0, v * (1 - x) <= 1), z3.Implies(x >= 0, v >= 1), z3.Implies(x <= 0, v <= 1)]
     elif name == 'tanh':
-      self.side += [v >= -1, v <= 1]
+      self.side += [v >= -1, v <= 1, z3.Implies(x >= 0, v >= 0), z3.Implies(x <= 0, v <= 0), z3.Implies(x >= 0, v <= x), z3.Implies(x <= 0, v >= x)]
+      if not self.saturate:
+        self.side += [v > -1, v < 1]
     elif name == 'logistic':
-      self.side += [v >= 0, v <= 1]
+      self.side += [v >= 0, v <= 1, z3.Implies(x >= 0, 2 * v >= 1), z3.Implies(x <= 0, 2 * v <= 1)]
+    elif name == 'log1p':
+      self.side += [z3.Implies(x >= 0, v >= 0), z3.Implies(x > -1, v <= x), z3.Implies(x > -1, v * (1 + x) >= x)]
+    elif name == 'log':
+      self.side += [z3.Implies(x > 0, v <= x - 1), z3.Implies(x > 0, v * x >= x - 1)]
     elif name in ('acos',):
       self.side += [v >= 0, v <= z3.RealVal('3.1415926536')]
     elif name in ('asin',):
@@ -946,7 +960,7 @@ def apply(ctx, e, name, ins):
     pred = i0 if z3.is_bool(i0) else (i0 != 0)
     return [ew(lambda a, b: s_sel(pred, a, b), 2)(o0, o1) for o0, o1 in zip(*outs)]
   if name in ('atan2', 'acos', 'asin', 'exp', 'log', 'tanh', 'pow', 'log1p', 'logistic', 'erf_inv', 'erf', 'expm1', 'atan',
-              'tan', 'exp2'):
+              'tan', 'exp2', 'atanh', 'asinh', 'acosh', 'sinh', 'cosh'):
     def uf(*xs):
       if name == 'pow' and isc(xs[1]):
         y = Fraction(xs[1])
@@ -1014,7 +1028,7 @@ def _const_fn(name, xs):
     return 1
   if name in ('log',) and x == 1:
     return 0
-  if name in ('log1p', 'tanh', 'asin', 'atan', 'tan', 'expm1', 'erf', 'erf_inv') and x == 0:
+  if name in ('log1p', 'tanh', 'asin', 'atan', 'tan', 'expm1', 'erf', 'erf_inv', 'atanh', 'sinh', 'asinh') and x == 0:
     return 0
   if name == 'acos' and x == 1:
     return 0
@@ -1030,6 +1044,15 @@ def _const_fn(name, xs):
       return num(Fraction(xs[0]) ** int(y))
   if name == 'exp' and _isinf(x) and x < 0:
     return 0
+  # ground transcendental constants: float64 evaluation (exact value is irrational; 1e-16 relative error, stated in evidence)
+  fns = {'exp': math.exp, 'log': math.log, 'log1p': math.log1p, 'tanh': math.tanh, 'atan2': math.atan2, 'acos': math.acos, 'asin': math.asin,
+         'atan': math.atan, 'tan': math.tan, 'expm1': math.expm1, 'erf': math.erf, 'atanh': math.atanh, 'sinh': math.sinh, 'cosh': math.cosh,
+         'asinh': math.asinh, 'logistic': lambda a: 1 / (1 + math.exp(-a)), 'pow': math.pow, 'exp2': lambda a: 2.0 ** a}
+  if name in fns and not any(_isinf(v) for v in xs):
+    try:
+      return num(fns[name](*[float(v) for v in xs]))
+    except (ValueError, OverflowError, ZeroDivisionError):
+      return None
   return None
 
 
@@ -1600,7 +1623,7 @@ def evalf(ctx, terms, env):
          'acos': lambda a: math.acos(min(1.0, max(-1.0, a))), 'asin': lambda a: math.asin(min(1.0, max(-1.0, a))),
          'exp': math.exp, 'log': math.log, 'tanh': math.tanh, 'pow': math.pow, 'log1p': math.log1p,
          'logistic': lambda a: 1 / (1 + math.exp(-a)), 'atan': math.atan, 'tan': math.tan, 'expm1': math.expm1,
-         'erf': math.erf, 'exp2': lambda a: 2.0 ** a}
+         'erf': math.erf, 'exp2': lambda a: 2.0 ** a, 'atanh': math.atanh, 'asinh': math.asinh, 'sinh': math.sinh, 'cosh': math.cosh}
 
   def ev(t0):
     stack = [t0]
